@@ -530,6 +530,31 @@ func (fl *Flow) refine(st State, cond ast.Expr, val bool) State {
 				fl.recordOutcome(out, other, cur, want)
 				return out
 			}
+			// x == ErrSentinel established: x is non-nil (sentinel errors are non-nil package-level values)
+			if (x.Op == token.EQL) == val {
+				var tested ast.Expr
+				if isSentinelErr(info, x.Y) {
+					tested = x.X
+				} else if isSentinelErr(info, x.X) {
+					tested = x.Y
+				}
+				if tested != nil {
+					if k, ok := KeyOf(info, tested); ok {
+						cur := st[k]
+						if cur.Nil == IsNil {
+							return nil
+						}
+						if fl.volatile[k.Root] {
+							return st
+						}
+						out := st.clone()
+						cur.Nil = NonNil
+						out[k] = cur
+						fl.recordOutcome(out, tested, cur, NonNil)
+						return out
+					}
+				}
+			}
 		}
 	case *ast.Ident:
 		if k, ok := KeyOf(info, x); ok {
@@ -881,7 +906,141 @@ func identOf(e ast.Expr) *ast.Ident {
 func condKey(c ast.Expr) VarKey { return VarKey{Path: fmt.Sprintf("cond:%d", c.Pos())} }
 
 // refineEdge applies refine and records the outcome of the whole condition.
+// expandNamedCond replaces boolean locals that are named sub-conditions (a single definition whose operands are
+// themselves never reassigned) by their definitions, so that `ok := a && b; if ok {` refines and records the same
+// facts as `if a && b {`.
+func (fl *Flow) expandNamedCond(cond ast.Expr, depth int) ast.Expr {
+	if depth > 3 {
+		return cond
+	}
+	fn := fl.G.Fn
+	info := fn.Info()
+	switch e := cond.(type) {
+	// (the original node is returned whenever nothing below it was expanded: rules compare conditions by identity)
+	case *ast.ParenExpr:
+		if x := fl.expandNamedCond(e.X, depth); x != e.X {
+			return &ast.ParenExpr{Lparen: e.Lparen, X: x, Rparen: e.Rparen}
+		}
+		return cond
+	case *ast.UnaryExpr:
+		if e.Op == token.NOT {
+			if x := fl.expandNamedCond(e.X, depth); x != e.X {
+				return &ast.UnaryExpr{OpPos: e.OpPos, Op: e.Op, X: x}
+			}
+		}
+		return cond
+	case *ast.BinaryExpr:
+		if e.Op == token.LAND || e.Op == token.LOR {
+			x, y := fl.expandNamedCond(e.X, depth), fl.expandNamedCond(e.Y, depth)
+			if x != e.X || y != e.Y {
+				return &ast.BinaryExpr{X: x, OpPos: e.OpPos, Op: e.Op, Y: y}
+			}
+		}
+		return cond
+	case *ast.Ident:
+		v, ok := info.ObjectOf(e).(*types.Var)
+		if !ok || v.Pkg() == nil || v.Parent() == v.Pkg().Scope() || v.IsField() {
+			return cond
+		}
+		if b, ok := v.Type().Underlying().(*types.Basic); !ok || b.Kind() != types.Bool {
+			return cond
+		}
+		def := singleDef(fn, info, v)
+		if def == nil {
+			return cond
+		}
+		// the definition must be the variable's declaration (x := ...): a `var x bool` that is assigned once
+		// later has two values, the zero value and the assigned one
+		isDecl := false
+		ast.Inspect(fn.Root().Body, func(n ast.Node) bool {
+			if as, ok := n.(*ast.AssignStmt); ok && as.Tok == token.DEFINE {
+				for _, l := range as.Lhs {
+					if id, ok := l.(*ast.Ident); ok && info.Defs[id] == types.Object(v) {
+						isDecl = true
+					}
+				}
+			}
+			return !isDecl
+		})
+		if !isDecl {
+			return cond
+		}
+		// every local the definition mentions must itself be stable (single definition or never assigned)
+		stable := true
+		ast.Inspect(def, func(n ast.Node) bool {
+			id, ok := n.(*ast.Ident)
+			if !ok {
+				return true
+			}
+			o, ok := info.ObjectOf(id).(*types.Var)
+			if !ok || o.Pkg() == nil || o.Parent() == o.Pkg().Scope() || o.IsField() {
+				return true
+			}
+			if assignCount(fn, info, o) > 1 {
+				stable = false
+			}
+			return stable
+		})
+		if !stable {
+			return cond
+		}
+		return &ast.ParenExpr{Lparen: e.Pos(), X: fl.expandNamedCond(def, depth+1), Rparen: e.End()}
+	}
+	return cond
+}
+
+// declaredByDefine: v is introduced by a short variable declaration (so it has no separate zero value).
+func declaredByDefine(f *FuncInfo, info *types.Info, v *types.Var) bool {
+	isDecl := false
+	ast.Inspect(f.Root().Body, func(n ast.Node) bool {
+		if as, ok := n.(*ast.AssignStmt); ok && as.Tok == token.DEFINE {
+			for _, l := range as.Lhs {
+				if id, ok := l.(*ast.Ident); ok && info.Defs[id] == types.Object(v) {
+					isDecl = true
+				}
+			}
+		}
+		return !isDecl
+	})
+	return isDecl
+}
+
+// assignCount counts the assignments (definitions included) of local v in the root function of f.
+func assignCount(f *FuncInfo, info *types.Info, v *types.Var) int {
+	n := 0
+	ast.Inspect(f.Root().Body, func(nd ast.Node) bool {
+		switch s := nd.(type) {
+		case *ast.AssignStmt:
+			for _, l := range s.Lhs {
+				if id, ok := l.(*ast.Ident); ok && info.ObjectOf(id) == types.Object(v) {
+					n++
+				}
+			}
+		case *ast.IncDecStmt:
+			if id, ok := s.X.(*ast.Ident); ok && info.ObjectOf(id) == types.Object(v) {
+				n += 2
+			}
+		case *ast.RangeStmt:
+			for _, l := range []ast.Expr{s.Key, s.Value} {
+				if id, ok := l.(*ast.Ident); ok && info.ObjectOf(id) == types.Object(v) {
+					n += 2
+				}
+			}
+		case *ast.UnaryExpr:
+			if s.Op == token.AND {
+				if id, ok := s.X.(*ast.Ident); ok && info.ObjectOf(id) == types.Object(v) {
+					n += 2 // address taken: may change behind our back
+				}
+			}
+		}
+		return true
+	})
+	return n
+}
+
 func (fl *Flow) refineEdge(st State, cond ast.Expr, val bool) State {
+	key := condKey(cond)
+	cond = fl.expandNamedCond(cond, 0)
 	out := fl.refine(st, cond, val)
 	if out == nil {
 		return nil
@@ -891,7 +1050,7 @@ func (fl *Flow) refineEdge(st State, cond ast.Expr, val bool) State {
 	if !val {
 		b = 2
 	}
-	out[condKey(cond)] = Fact{Bool: b, Def: cond}
+	out[key] = Fact{Bool: b, Def: cond}
 	return out
 }
 
